@@ -180,6 +180,12 @@ func (n netPlan) policy(rng *vh.Rand, start time.Time) msgnet.Policy {
 	}
 }
 
+type lateCreate struct {
+	Side     int  `json:"side"`
+	DeltaUs  int  `json:"delta_us"` // relative to the Stop of that side
+	Reliable bool `json:"reliable"`
+}
+
 type opSpec struct {
 	Op  string `json:"op"`
 	N   int    `json:"n,omitempty"`
@@ -194,7 +200,10 @@ type program struct {
 	DoubleStop      bool       `json:"double_stop"`
 	KeepAlive       bool       `json:"keepalive_traffic"` // a background tube keeps the muxers from idling out
 	CloseDuringInit bool       `json:"close_during_init"`
-	Strength        int        `json:"perturb_strength"`
+	// tubes requested around the moment Stop is called on that side (never
+	// closed by the harness: after Stop returned nothing may be left of them)
+	LateCreate []lateCreate `json:"late_create,omitempty"`
+	Strength   int          `json:"perturb_strength"`
 }
 
 // genEarlyClose: directed family - the acceptor closes the moment Accept hands
@@ -280,6 +289,9 @@ func genProgram(rng *vh.Rand) program {
 	p.DoubleStop = rng.Chance(0.3)
 	p.CloseDuringInit = rng.Chance(0.2)
 	p.Strength = rng.Pick(0, 20, 40, 60)
+	for k := rng.Pick(0, 0, 1, 2, 3); k > 0; k-- {
+		p.LateCreate = append(p.LateCreate, lateCreate{Side: rng.Intn(2), DeltaUs: rng.Pick(-2000, -100, -1, 0, 1, 50, 300, 1000, 5000, 400000), Reliable: rng.Chance(0.4)})
+	}
 	return p
 }
 
@@ -626,6 +638,28 @@ func runProgram(r *vh.Runner, c *vh.Case, i int, prog program, realTime bool) {
 			m.Stop()
 			tr.end(cl)
 			close(stopRet[side])
+		}()
+	}
+	for _, lc := range prog.LateCreate {
+		lc := lc
+		m := []*tubes.Muxer{A, B}[lc.Side]
+		wg.Add(1)
+		go func() {
+			defer wg.Done()
+			time.Sleep(time.Duration(prog.StopAfter[lc.Side])*scale + time.Duration(lc.DeltaUs)*time.Microsecond)
+			cl := tr.begin("AB"[lc.Side:lc.Side+1], "Muxer.CreateTube(around-stop)")
+			var err error
+			if lc.Reliable {
+				_, err = m.CreateReliableTube(tubes.TubeType(77))
+			} else {
+				_, err = m.CreateUnreliableTube(tubes.TubeType(78))
+			}
+			tr.end(cl)
+			if err == nil {
+				r.Count("tubes_admitted_around_stop", 1)
+			} else {
+				r.Count("tubes_refused_around_stop", 1)
+			}
 		}()
 	}
 	// everything must have returned within the bound after the later Stop was issued
